@@ -7,10 +7,13 @@ the `locks` driver checks on the recorded lock events of every concurrent run); 
 control skeleton of EVERY function of nfs/, dir/ and shrinker/ — REGENERATED from the source on
 every run — no path uses an inode variable after the commit or abort that released its lock
 (path-sensitive abstract execution, decided by the kernel).  Outside: the Go memory model
-itself, accesses the extractor does not see as inode-variable uses (fields of FsState, stats),
+itself, accesses the extractor does not see as inode-variable uses (fields of FsState),
 go-journal's internals; (3) the structs with their own mutex (cache.Cache, shrinker.ShrinkerSt)
 access the fields that mutex guards only while holding it (`mutex_fields_under_mutex`, same
-regenerated-skeleton technique).  As search
+regenerated-skeleton technique); (4) the fields that sync/atomic alone synchronises (the statistics
+counters) are touched through sync/atomic or in function-private copies only
+(`atomic_fields_are_only_touched_atomically`, table regenerated with go/types), which rules out
+races on them (`atomic_discipline_race_free`).  As search
 support the thorough tier runs the concurrent harness under the Go race detector.
 -/
 import GoNfsd.Gen.Skeleton
@@ -68,5 +71,53 @@ example : check ([], .seq [.acq "ip", .use "ip", .fin, .ret]) = true := by decid
 example : check ([], .seq [.setFlag "done" false,
     .loop (.seq [.acq "d", .branch [.seq [.fin, .setFlag "done" true, .brk], .seq []], .brk]),
     .branch [.seq [.assume "done" true, .ret], .seq [.assume "done" false]], .use "d", .fin]) = true := by decide +kernel
+
+/-! ### memory that sync/atomic alone synchronises (the statistics counters) -/
+
+/-- one access to a memory cell, as the race detector sees it -/
+structure Access where
+  thread : Nat
+  cell   : Nat
+  write  : Bool
+  atomic : Bool
+
+/-- two accesses to a cell that no lock orders race when they come from different goroutines, one
+    of them writes, and they are not both sync/atomic operations -/
+def races (a b : Access) : Prop :=
+  a.cell = b.cell ∧ a.thread ≠ b.thread ∧ (a.write = true ∨ b.write = true) ∧ ¬ (a.atomic = true ∧ b.atomic = true)
+
+/-- the discipline the table below is checked for: a cell is either private to one goroutine (a
+    local variable of the function) or reached through sync/atomic only -/
+def AtomicDiscipline (tr : List Access) : Prop :=
+  ∀ a ∈ tr, a.atomic = true ∨ ∀ b ∈ tr, b.cell = a.cell → b.thread = a.thread
+
+/-- under that discipline no two accesses of any execution race -/
+theorem atomic_discipline_race_free (tr : List Access) (h : AtomicDiscipline tr) :
+    ∀ a ∈ tr, ∀ b ∈ tr, ¬ races a b := by
+  intro a ha b hb ⟨hc, ht, _, hna⟩
+  rcases h a ha with h1 | h1
+  · rcases h b hb with h2 | h2
+    · exact hna ⟨h1, h2⟩
+    · exact ht (h2 a ha hc)
+  · exact ht (h1 b hb hc.symm).symm
+
+/-- and without it they do: a plain read of a counter that another goroutine adds to atomically
+    (the seeded change C14k: `for i, op := range ops` copies the counters with plain loads) -/
+example : races ⟨1, 7, false, false⟩ ⟨2, 7, true, true⟩ := by
+  refine ⟨rfl, by decide, Or.inr rfl, ?_⟩
+  intro h; exact absurd h.1 (by decide)
+
+/-- what the code does (table regenerated from the whole module on every run, types by go/types):
+    every field that some sync/atomic call synchronises is read and written through sync/atomic
+    (0) or inside a variable private to the function (1: a local built by a composite literal,
+    `make`, `new`, a zero `var`, or the function's own copy of a value parameter); no function
+    reads, writes or COPIES (assignment, range value, argument, value receiver, return) such a
+    field where another goroutine can reach it (2). -/
+theorem atomic_fields_are_only_touched_atomically :
+    ∀ u ∈ GoNfsd.Gen.Skeleton.atomicUses, u.2.1 ≤ 1 := by decide
+
+/-- the table is not empty and does contain atomic accesses -/
+theorem atomic_table_nonempty :
+    0 < (GoNfsd.Gen.Skeleton.atomicUses.filter (fun u => u.2.1 == 0)).length := by decide
 
 end GoNfsd.Props.C14
